@@ -20,6 +20,16 @@
  *        c d | x k (0 / 22 as myth_key_delete_body) | s t k v | g t k | n t (myth_tls_tree_init)
  *   conc T  {n op*n}*T  S m t*m          -> lock-step run of the concurrent allocator, see below
  *
+ *   variant g l                          -> echoes the compile-time variant "variant <C10_GEN> <C10_LOCK>"
+ *   tree also:  b k   one more incarnation of key k (what delete + create do to the key table): with
+ *               generation tags keys[k].gen++, otherwise nothing                         -> b
+ *   finib DT N op*N    like fini, with op = s k v | b k
+ *
+ * The source exists in variants (tools/props/c10.py decides by looking at the source and compiles with
+ * -DC10_GEN=1 when myth_tls_tree_get/_set take the key allocator and entries carry a generation,
+ * -DC10_LOCK=1 when the key free list is protected by a spin lock).  With generation tags the dumps show
+ * "i=value@gen" for every slot with a value or a generation, and the key dump ends with " gen=k:g,...".
+ *
  * myth_malloc/myth_free of the library end in real_malloc/real_free; the link wraps those two
  * (-Wl,--wrap) so that every node allocation and release of a case is seen here.  */
 #include <stdio.h>
@@ -32,6 +42,22 @@
 #include "myth/myth.h"
 #include "myth_config.h"
 #include "myth_sched_func.h"   /* pulls in myth_tls.h / myth_tls_func.h of the current tree */
+
+#ifndef C10_GEN
+#define C10_GEN 0
+#endif
+#ifndef C10_LOCK
+#define C10_LOCK 0
+#endif
+#if C10_GEN
+#define TREE_SET(t, k, v) myth_tls_tree_set((t), &G.ka, (k), (v))
+#define TREE_GET(t, k) myth_tls_tree_get((t), &G.ka, (k))
+#define BUMP(k) do { if ((k) >= 0 && (k) < myth_tls_n_keys) G.ka.keys[k].gen++; } while (0)
+#else
+#define TREE_SET(t, k, v) myth_tls_tree_set((t), (k), (v))
+#define TREE_GET(t, k) myth_tls_tree_get((t), (k))
+#define BUMP(k) do { } while (0)
+#endif
 
 /* ---------------- allocation tracking ---------------- */
 void * __real_real_malloc(size_t sz);
@@ -108,8 +134,14 @@ static void dump_node(myth_tls_tree_t * t, myth_tls_tree_node_t * n, int depth) 
   if (!n) { printf("-"); return; }
   if (depth == myth_tls_tree_depth) {
     printf("L"); pr_origin(t, n); printf("{");
-    for (i = 0; i < myth_tls_tree_node_n_entries_in_leaf; i++)
+    for (i = 0; i < myth_tls_tree_node_n_entries_in_leaf; i++) {
+#if C10_GEN
+      if (n->entries[i].value || n->entries[i].gen)
+        printf("%d=%lu@%u,", i, (unsigned long)n->entries[i].value, n->entries[i].gen);
+#else
       if (n->entries[i].value) printf("%d=%lu,", i, (unsigned long)n->entries[i].value);
+#endif
+    }
     printf("}");
   } else {
     printf("I"); pr_origin(t, n); printf("(");
@@ -144,6 +176,10 @@ static void dump_keys(void) {
   printf(" live=");
   for (i = 0; i < myth_tls_n_keys; i++) if (G.ka.keys[i].next == (myth_tls_key_entry_t *)-1) run_add(i);
   run_flush();
+#if C10_GEN
+  printf(" gen=");
+  for (i = 0; i < myth_tls_n_keys; i++) if (G.ka.keys[i].gen) printf("%d:%u,", i, G.ka.keys[i].gen);
+#endif
 }
 
 /* ---------------- concurrent allocator, lock step ----------------
@@ -176,7 +212,10 @@ static void give_back(void) {
   pthread_mutex_lock(&mu); turn = -1; pthread_cond_broadcast(&cv); pthread_mutex_unlock(&mu);
 }
 static void hook(int kind, const char * id, const void * obj, long val) {
-  if (my_id < 0 || kind != MYTH_VERIF_KIND_POINT || obj != (const void *)&G.ka) return;
+  /* hooks on the allocator under test: its own POINTs (obj = the allocator) and, when the free list is
+     protected by a lock, the POINTs / SPINs of that lock (obj = the lock, a member of the allocator) */
+  if (my_id < 0 || kind == MYTH_VERIF_KIND_EVENT) return;
+  if ((const char *)obj < (const char *)&G.ka || (const char *)obj >= (const char *)(&G.ka + 1)) return;
   TH[my_id].at = id; TH[my_id].at_val = val;
   give_back(); wait_turn(my_id);
   if (abort_case) pthread_exit(0);
@@ -207,6 +246,9 @@ static const char * short_label(const char * id) {
   if (!strcmp(id, "key.dealloc.check")) return "dk";
   if (!strcmp(id, "key.dealloc.readhead")) return "dh";
   if (!strcmp(id, "key.dealloc.cas")) return "dc";
+  if (!strcmp(id, "spin.trylock")) return "st";
+  if (!strcmp(id, "spin.wait")) return "sw";
+  if (!strcmp(id, "spin.unlock")) return "su";
   return id;
 }
 /* returns 0 if the case must stop */
@@ -220,7 +262,7 @@ static int cstep(int t) {
   printf(" %d:", t);
   if (c->nothing) printf("-");
   else if (c->returned) printf("R%ld", c->last);
-  else if (!strcmp(short_label(c->at), "ah")) printf("ah");
+  else if (!strcmp(short_label(c->at), "ah") || short_label(c->at)[0] == 's') printf("%s", short_label(c->at));
   else printf("%s:%ld", short_label(c->at), c->at_val);
   printf("/f"); pr_cell(G.ka.free);
   return 1;
@@ -249,8 +291,13 @@ static int run_conc(void) {
     ok = cstep(who);
   }
   if (ok) {
+    /* run every program to its end, round robin in thread order */
+    int fuel = 20000, any = 1;
     printf(" ;");
-    for (t = 0; t < T && ok; t++) { int fuel = 4000; while (ok && cbusy(t) && fuel-- > 0) ok = cstep(t); }
+    while (ok && any && fuel > 0) {
+      any = 0;
+      for (t = 0; t < T; t++) if (ok && cbusy(t) && fuel > 0) { any = 1; fuel--; ok = cstep(t); }
+    }
   }
   /* stop the threads: parked ones leave through pthread_exit in the hook */
   pthread_mutex_lock(&mu); abort_case = 1; for (t = 0; t < T; t++) TH[t].quit = 1; pthread_mutex_unlock(&mu);
@@ -271,27 +318,32 @@ static int run_conc(void) {
 int main(void) {
   char op[32];
   while (scanf("%31s", op) == 1) {
-    if (!strcmp(op, "consts")) {
+    if (!strcmp(op, "variant")) {
+      int a, b; if (scanf("%d %d", &a, &b) != 2) return 2;
+      printf("variant %d %d\n", C10_GEN, C10_LOCK);
+    } else if (!strcmp(op, "consts")) {
       printf("consts %d %d %d %d %d %d %d\n", myth_tls_tree_depth, myth_tls_tree_node_log_n_children,
              myth_tls_tree_node_log_n_entries_in_leaf, myth_tls_n_keys, (int)myth_tls_tree_node_sz_node,
              (int)myth_tls_tree_node_sz_leaf, (int)myth_tls_tree_pre_alloc_sz);
     } else if (!strcmp(op, "tree")) {
       int n, i; static myth_tls_tree_t t[1];
       if (scanf("%d", &n) != 1) return 2;
-      track_begin(); g_cur_tree = t; myth_tls_tree_init(t);
+      ka_fresh(); track_begin(); g_cur_tree = t; myth_tls_tree_init(t);
       printf("tree");
       for (i = 0; i < n; i++) {
         char o[8]; int k; unsigned long v;
         if (scanf("%7s", o) != 1) return 2;
-        if (o[0] == 's') { if (scanf("%d %lu", &k, &v) != 2) return 2; printf(" r%d", myth_tls_tree_set(t, k, (void *)v)); }
-        else if (o[0] == 'g') { if (scanf("%d", &k) != 1) return 2; printf(" v%lu", (unsigned long)myth_tls_tree_get(t, k)); }
+        if (o[0] == 's') { if (scanf("%d %lu", &k, &v) != 2) return 2; printf(" r%d", TREE_SET(t, k, (void *)v)); }
+        else if (o[0] == 'g') { if (scanf("%d", &k) != 1) return 2; printf(" v%lu", (unsigned long)TREE_GET(t, k)); }
+        else if (o[0] == 'b') { if (scanf("%d", &k) != 1) return 2; BUMP(k); printf(" b"); }
         else if (o[0] == 'd') { printf(" "); dump_node(t, t->root, 0); }
         else return 2;
       }
       printf(" pp=%ld nh=%d\n", (long)(t->pre_alloc_p - t->pre_alloc_buf), nblk);
       track_end();
-    } else if (!strcmp(op, "fini")) {
+    } else if (!strcmp(op, "fini") || !strcmp(op, "finib")) {
       char dt[16]; int ns, i, k; unsigned long v; static myth_tls_tree_t t[1]; int nmalloc;
+      int with_ops = !strcmp(op, "finib");
       if (scanf("%15s", dt) != 1) return 2;
       ka_fresh();
       if (!strcmp(dt, "all")) { for (i = 0; i < myth_tls_n_keys; i++) G.ka.keys[i].destructor = DTOR[i]; }
@@ -301,7 +353,13 @@ int main(void) {
       } else if (strcmp(dt, "none")) return 2;
       if (scanf("%d", &ns) != 1) return 2;
       track_begin(); g_cur_tree = t; myth_tls_tree_init(t);
-      for (i = 0; i < ns; i++) { if (scanf("%d %lu", &k, &v) != 2) return 2; myth_tls_tree_set(t, k, (void *)v); }
+      for (i = 0; i < ns; i++) {
+        char o[8] = "s";
+        if (with_ops && scanf("%7s", o) != 1) return 2;
+        if (o[0] == 's') { if (scanf("%d %lu", &k, &v) != 2) return 2; TREE_SET(t, k, (void *)v); }
+        else if (o[0] == 'b') { if (scanf("%d", &k) != 1) return 2; BUMP(k); }
+        else return 2;
+      }
       nmalloc = nblk; g_calls_len = 0; if (g_calls) g_calls[0] = 0; log_reset();
       myth_tls_tree_fini(t, &G.ka);
       printf("calls%s | frees%s | mallocs %d\n", g_calls_len ? g_calls : "", g_log_len ? g_log : "", nmalloc);
@@ -332,8 +390,8 @@ int main(void) {
           if (scanf("%d", &k) != 1) return 2;
           printf(" %d", myth_tls_key_allocator_dealloc(&G.ka, k) == (myth_tls_destructor_fun_t)-1 ? EINVAL : 0);
         }
-        else if (o[0] == 's') { if (scanf("%d %d %lu", &t, &k, &v) != 3 || t < 0 || t >= T) return 2; printf(" %d", myth_tls_tree_set(&tr[t], k, (void *)v)); }
-        else if (o[0] == 'g') { if (scanf("%d %d", &t, &k) != 2 || t < 0 || t >= T) return 2; printf(" %lu", (unsigned long)myth_tls_tree_get(&tr[t], k)); }
+        else if (o[0] == 's') { if (scanf("%d %d %lu", &t, &k, &v) != 3 || t < 0 || t >= T) return 2; printf(" %d", TREE_SET(&tr[t], k, (void *)v)); }
+        else if (o[0] == 'g') { if (scanf("%d %d", &t, &k) != 2 || t < 0 || t >= T) return 2; printf(" %lu", (unsigned long)TREE_GET(&tr[t], k)); }
         else if (o[0] == 'n') { if (scanf("%d", &t) != 1 || t < 0 || t >= T) return 2; myth_tls_tree_init(&tr[t]); printf(" 0"); }
         else return 2;
       }
